@@ -874,14 +874,41 @@ class Foreach:
     """iteration protocol: yields one GK (or (GK, column)) and checks that the loop ran to completion"""
     active = []
 
-    def __init__(self, sd, mode):
+    def __init__(self, sd, mode, dom=None):
         self.sd, self.mode = sd, mode
+        self.dom = sd.dom if dom is None else dom     # the iterated set of keys (a key view, or a set expression over key views)
+
+    @staticmethod
+    def _dom_of(o):
+        if isinstance(o, Foreach):
+            if o.mode != 'keys':
+                raise SX.PathAbort('set operation on an items view')
+            return o.dom
+        if isinstance(o, SDict):
+            return o.dom
+        raise SX.PathAbort(f'set operation between a symbolic key view and {type(o).__name__}')
+
+    def _setop(self, other, f):
+        if self.mode != 'keys':
+            raise SX.PathAbort('set operation on an items view')
+        a, b = self.dom, Foreach._dom_of(other)
+        j = z3.Int('j!set')
+        return Foreach(self.sd, 'keys', z3.Lambda([j], f(z3.Select(a, j), z3.Select(b, j))))
+
+    def __sub__(self, other):
+        return self._setop(other, lambda x, y: z3.And(x, z3.Not(y)))
+
+    def __and__(self, other):
+        return self._setop(other, lambda x, y: z3.And(x, y))
+
+    def __or__(self, other):
+        return self._setop(other, lambda x, y: z3.Or(x, y))
 
     def __iter__(self):
         c = SX.ctx()
         k = c.new_int('k!each')
-        gk = GK(k, self.sd.dom)
-        c.assume(z3.Select(self.sd.dom, k))          # the generic key is one of the iterated map
+        gk = GK(k, self.dom)
+        c.assume(z3.Select(self.dom, k))          # the generic key is one of the iterated set
         npc = len(c.pc)
         Foreach.active.append(gk)
         done = False
@@ -1203,6 +1230,14 @@ def native_history_replay(o=None, nhist=150, length=40, seed=0):
                       user_scalar_field=np.sin(x))        # a user-supplied field whose name is not in the variable catalogue
         for k, v in inputs.items():
             rel.data[k] = v
+        if rng.random() < 0.5:
+            # inputs (and things derived from them) read through rel[...] BEFORE the freeze: they then have an age entry
+            # (no clean-up event before the freeze: nothing is frozen yet, an eviction there would be legitimate)
+            keep = rel.clear_cache_every_nbr_calc, rel.memory_threshold_inGB
+            rel.clear_cache_every_nbr_calc, rel.memory_threshold_inGB = 10 ** 6, 1e6
+            for q in rng.sample(['gammadown3', 'gammadet', 'alpha', 'Kdown3', 'betaup3', 'Ktrace'], 3):
+                rel[q]
+            rel.clear_cache_every_nbr_calc, rel.memory_threshold_inGB = keep
         rel.freeze_data()
         if rng.random() < 0.3:
             # a user-set importance on a COMPUTED quantity (never on a frozen input: that would un-freeze it legitimately)
